@@ -72,14 +72,14 @@ CLAIMS["C20"] = dict(
    design_ref="5/C20, 12.2")
 
 CLAIMS["C01"] = dict(
-   text="Machine-checked Lean 4 theorems (29) about executable models that follow sha256.c / sha1.c / md5.c / crc32c.c / the HMAC and "
+   text="Machine-checked Lean 4 theorems (36 obligations) about executable models that follow sha256.c / sha1.c / md5.c / crc32c.c / the HMAC and "
         "PBKDF2 code statement by statement: for EVERY message and EVERY partition into Update calls (any sizes, including the 64-bit "
         "bit-count carry) the streaming interface equals the one-shot FIPS 180-4 / RFC 1321 / RFC 3720 specification; the unrolled "
         "round functions equal the published compression functions; HMAC (keys shorter, equal and longer than the block) equals RFC 2104 "
         "and PBKDF2 equals RFC 8018 for every password/salt/count/dkLen. Round constants, initial values, tables, shift amounts and the "
         "bit-count update are re-extracted from the source on every run and proved equal to the standards' by kernel evaluation; the "
         "model is run in lock-step with the real code (digest = Spec at L1; state words, count and buffer at L2) on generated update "
-        "partitions around every block/padding boundary, long PBKDF2 outputs and the published vectors.",
+        "partitions around every block/padding boundary, long PBKDF2 outputs, the published vectors, and one message of 2^25 + k bytes per run hashed by the real code and by the streamed model (`bigd`, `exec_bigd_eq_spec`: bits 28.. of the bit count).",
    note=PROOF_NOTE + "Assumptions: messages < 2^64 bits; PBKDF2 c >= 1 and dkLen <= 32*(2^32-1) (asserted by the C); portable code paths "
         "(the accelerated paths are C03's). memcpy is modelled on lists; uninitialised scratch starts as zeros in the model; wiping is C20's subject. "
         "A wrong bit-count only shows for a single update of >= 512 MiB: tied by the extractor's comparison and a white-box counter op, not by a run of that size.",
@@ -104,7 +104,7 @@ CLAIMS["C05"] = dict(
         "to the tail); the poll timeout never exceeds the ceiling in ms of the time to the nearest timer deadline, equals it below the "
         "saturation point of poll's int argument and is 0 exactly when the deadline has passed, also when recomputed from the remaining "
         "time after EINTR (the F11 and F12 repairs); and for EVERY program and environment the model's trace is accepted by the executable C05 monitor "
-        "(a pending immediate before any ready socket before any expired timer; timers in deadline order; a call that starts with "
+        "(a pending immediate before any ready socket before any expired timer, and no timer before the registered descriptors have been looked at since the previous callback; timers in deadline order; a call that starts with "
         "something runnable runs a callback, otherwise blocks no longer than the earliest deadline and runs what woke it; the first "
         "non-zero status or an interrupt request stops dispatching and events not yet run stay registered), closed over the proved timer-queue contract. Tie: the monitor judges the real event loop's trace "
         "on every run and the whole state is compared with the model after every op, including EINTR sequences with time passing.",
